@@ -153,3 +153,69 @@ Proof.
     (Some {| scheme := https; opaque := false; uhost := [97;46;101;120]; rawquery := []; upath := []; hostname := [97;46;101;120] |}).
   split; vm_compute; reflexivity.
 Qed.
+
+(* ---- the client as configured: the decision speaks about the configured strings, for every client kind *)
+Theorem can_redirect_c_sound c pats parse :
+  can_redirect_c c pats parse = Some true ->
+  (exists u, parse = Some u /\ scheme u = https /\ opaque u = false /\ uhost u <> [] /\
+    rawquery u = [] /\ has_dotdot (upath u) = false /\
+    (configured_domains c <> [] -> exists d, In d (configured_domains c) /\ dom_spec (hostname u) d)) /\
+  (pats <> [] -> exists pre post, pats = pre ++ PMatch :: post /\ Forall (fun x => x = PNoMatch) pre) /\
+  (configured_domains c = [] -> pats <> []).
+Proof. unfold can_redirect_c, loaded_domains. apply can_redirect_p_sound. Qed.
+
+Theorem cors_c_sound c parse :
+  cors_allowed_c c parse = true ->
+  exists u, parse = Some u /\ scheme u = https /\
+    exists d, In d (configured_domains c) /\ dom_spec (hostname u) d.
+Proof. unfold cors_allowed_c, loaded_domains. apply cors_sound. Qed.
+
+(* the kind of the client (public or with a secret) and every other option are irrelevant to the decision *)
+Theorem client_kind_irrelevant c1 c2 pats parse :
+  configured_domains c1 = configured_domains c2 ->
+  can_redirect_c c1 pats parse = can_redirect_c c2 pats parse /\
+  cors_allowed_c c1 parse = cors_allowed_c c2 parse.
+Proof. unfold can_redirect_c, cors_allowed_c, loaded_domains. intros ->. split; reflexivity. Qed.
+
+Lemma dom_spec_bytes host d c : dom_spec host d -> In c d -> In c host.
+Proof.
+  intros [_ [E|[[pre E]|[_ [pre E]]]]] I; subst host.
+  - exact I.
+  - apply in_or_app. right. right. exact I.
+  - apply in_or_app. right. exact I.
+Qed.
+
+(* an entry written in a form host names cannot take (a byte that the host does not contain: '/', ':', '*',
+   a space, an upper-case letter against a lower-case host ...) matches nothing *)
+Theorem odd_entry_matches_nothing host d c : In c d -> ~ In c host -> host_matches host d = false.
+Proof.
+  intros I N. destruct (host_matches host d) eqn:M; [|reflexivity].
+  exfalso. apply N. apply (dom_spec_bytes host d c); [apply host_matches_spec; exact M|exact I].
+Qed.
+
+(* the cut-set loader hands the validator a domain nobody configured: entry "https://ssh.example" is read as
+   ".example", and https://evil.example/cb is accepted although no configured string is a dot-boundary suffix
+   of the host *)
+Theorem trimset_loader_refuted : exists c pats u,
+  can_redirect_c_trimset c pats (Some u) = Some true /\ can_redirect_c c pats (Some u) = Some false /\
+  forall d, In d (configured_domains c) -> host_matches (hostname u) d = false.
+Proof.
+  exists {| rc_public := false; rc_options := [];
+            configured_domains := [[104;116;116;112;115;58;47;47;115;115;104;46;101;120;97;109;112;108;101]] |},
+    [],
+    {| scheme := https; opaque := false; uhost := [101;118;105;108;46;101;120;97;109;112;108;101]; rawquery := [];
+       upath := [47;99;98]; hostname := [101;118;105;108;46;101;120;97;109;112;108;101] |}.
+  split; [vm_compute; reflexivity|]. split; [vm_compute; reflexivity|].
+  intros d [<-|[]]. vm_compute. reflexivity.
+Qed.
+
+(* the "starts like a loopback literal" exception sends a public client's code over http to 127.0.0.1.evil.com *)
+Theorem loopback_prefix_refuted : exists c pats u,
+  can_redirect_c_loopback c pats (Some u) = Some true /\ can_redirect_c c pats (Some u) = Some false /\
+  scheme u <> https.
+Proof.
+  exists {| rc_public := true; rc_options := []; configured_domains := [[101;120;46;99;111]] |}, [],
+    {| scheme := http_s; opaque := false; uhost := [49;50;55;46;48;46;48;46;49;46;101;118;105;108;46;99;111;109];
+       rawquery := []; upath := [47;99;98]; hostname := [49;50;55;46;48;46;48;46;49;46;101;118;105;108;46;99;111;109] |}.
+  split; [vm_compute; reflexivity|]. split; [vm_compute; reflexivity|]. discriminate.
+Qed.
